@@ -210,16 +210,19 @@ def output_matches(got, want, bits):
 
 def in_reference_domain(got, want):
     """inputs whose meaning is documented: no marker in the got, a marker in the want only as
-    a whole line, no carriage returns"""
-    if MARK in got or '\r' in got or '\r' in want:
+    a whole line (judged after colour removal), no carriage returns, no malformed escapes"""
+    if '\r' in got or '\r' in want:
         return False
-    if '\x1b' in strip_colour(got) or '\x1b' in strip_colour(want):
+    g = strip_colour(got)
+    w = strip_colour(want)
+    if '\x1b' in g or '\x1b' in w:
         return False        # malformed escape sequences: undocumented
-    if MARK in want:
-        for line in want.split('\n'):
+    if MARK in g:
+        return False
+    if MARK in w:
+        for line in w.split('\n'):
             if MARK in line and line != MARK:
                 return False
-    # a lone trailing part of a marker is fine
     return True
 
 
